@@ -97,12 +97,12 @@ def ximage(x, img):
 _CODE_CONSTANTS = {}
 
 
-def code_constants(lo=8, hi=2 ** 19, subpath=""):
+def code_constants(lo=8, hi=2 ** 19, subpath="", exclude=None):
     """sorted integer constants c (lo <= c <= hi) that occur in the source of the traffic_weaver under test"""
     import ast
     import glob
     import os
-    key = (lo, hi, subpath)
+    key = (lo, hi, subpath, exclude)
     if key in _CODE_CONSTANTS:
         return _CODE_CONSTANTS[key]
     import traffic_weaver
@@ -111,6 +111,8 @@ def code_constants(lo=8, hi=2 ** 19, subpath=""):
     for f in glob.glob(os.path.join(root, "**", "*.py"), recursive=True):
         rel = os.path.relpath(f, root)
         if subpath and not rel.startswith(subpath):
+            continue
+        if exclude and rel.startswith(exclude):
             continue
         if rel.startswith(os.path.join("datasets", "data")) or rel.endswith("_version.py"):
             continue
